@@ -104,3 +104,40 @@ FAMILIES["C07"] = dict(
                 "built-ins, inputs with nulls, empty containers and shared sub-structures, registered variables) has the caller's document and variables deep-compared before and after by trace validation, successful or failing."),
     level_note=_SEM_NOTE,
 )
+
+FAMILIES["C13"] = dict(
+    g=[G("MC_C13", "MC_C13_quick.cfg", "MC_C13_thorough.cfg")],
+    v=[dict(profile="sort", n={"quick": 1500, "thorough": 20000})],
+    level_text=("Order-by and $sort are specified twice in TLA+: functionally (JEval: key tuples, lexicographic comparison with per-term direction and absent-last, stable insertion) and relationally (MC_C13!IsStableSortedPerm: permutation, "
+                "adjacent pairs ordered, ties keep input order); TLC checks that the two agree on every enumerated case - all arrays of length 0..3 (4 thorough) over a 3x3 key domain with ties and missing keys x 25 sort specifications x comparators - "
+                "and every case is replayed into the real code; seeded arrays of 13-50 tie-rich records (where the standard library's sort stops being accidentally stable) are recorded and validated against the same specification."),
+    level_note=_SEM_NOTE,
+)
+
+FAMILIES["C14"] = dict(
+    g=[G("MC_C14", "MC_C14_quick.cfg", "MC_C14_thorough.cfg")],
+    v=[dict(profile="group", n={"quick": 2000, "thorough": 40000})],
+    level_text=("Grouping (K1-K2: partition of item indexes by key string per pair, IllegalKey, DuplicateKey across pairs, value evaluated over the group's items in order, absent values omitted) and the object functions (K3) are TLA+ operators; "
+                "TLC checks the partition law and the identities of the statement ($merge($spread(o)) = o, $count($keys(o)) = $count($spread(o)), $lookup(o,k) = o.k) on the specification for every enumerated case - all arrays of <= 3 (4) items over "
+                "5 x 3 key/second-key values x 27 grouping programs, all objects of <= 3 members x 16 programs - and each case is replayed into the real code and validated; results are compared as canonical (sorted) objects, enumeration results as multisets."),
+    level_note=_SEM_NOTE,
+)
+
+FAMILIES["C15"] = dict(
+    g=[G("MC_C15", "MC_C15_quick.cfg", "MC_C15_thorough.cfg")],
+    v=[dict(profile="calls", n={"quick": 3000, "thorough": 60000})],
+    level_text=("The definitions A1-A4 ($map/$filter/$reduce/$single with the arity clamp, $append/$reverse/$zip/$distinct/$shuffle, $count/$sum/$max/$min/$average, scalar-as-one-member-array, undefined-argument rules) are TLA+ operators written from the statement; "
+                "TLC enumerates all arrays of length 0..3 (4) over the 5-value domain {1,\"1\",true,[1],{\"a\":1}} plus kind-different twins x 14 function arguments (lambdas of arity 0..4, built-ins, a partial, a chain) x 6 reducers x array/aggregate programs, "
+                "numeric arrays over integers and halves, scalars in array position and missing arguments; every case is replayed into the real code and validated. $shuffle is compared as a permutation."),
+    level_note=_SEM_NOTE,
+)
+
+FAMILIES["C12"] = dict(
+    g=[G("MC_C12", "MC_C12_quick.cfg", "MC_C12_thorough.cfg")],
+    v=[dict(profile="blocks", n={"quick": 3000, "thorough": 60000})],
+    level_text=("Scoping is specified with an explicit store of frames shared by reference (JEval: NewFrame/Bind/LookupVar), closures capture frame and context item, signatures are the TLA+ operator SigApply/ArgFits, partial application PartialArgs, "
+                "chaining Apply/CallSeq; TLC checks `v ~> f(a)` = `f(v,a)` on the specification and enumerates every 1-parameter (2 thorough) signature over 11 type forms x 4 options against all argument lists of length 0..2 (3) over 10 value kinds, "
+                "13 scoping/closure program schemes x 9 value pairs, placeholders in every position of a 3-parameter function x 0..4 arguments, chains of 1..3 stages over 9 stage kinds, and context-defaulting built-ins nested in each other's arguments; "
+                "every case is replayed into the real code and validated."),
+    level_note=_SEM_NOTE + " The context item seen by a context-defaulting built-in reached through a partial application, a chain or a higher-order built-in is left open by the statement and the specification abstains there.",
+)
